@@ -95,7 +95,7 @@ def run(chk, scratch):
         d, w = worlds[seed]
         out = os.path.join(d, "out_%s_%s_%s" % (g, t, n))
         ev = out + "_ev"
-        r = pipeline.run(d, out, threads=2, extra=["--gene_quantification", g, "--transcript_quantification", t,
+        r = pipeline.run(d, out, threads=1 + (len(g) + len(t)) % 2, extra=["--gene_quantification", g, "--transcript_quantification", t,
                                                    "--normalization_method", n], home=os.path.join(d, "home_%s_%s_%s" % (g, t, n)),
                          mon=["counter"], events=ev)
         return job, out, ev, r
